@@ -130,6 +130,8 @@ def lemma_linear_exact():
 
 
 def replay_field(ob):
+    if 'nsys=2' in (ob.get('target') or ''):
+        return {'func': 'field_linear_time_and_lengths', 'inputs': {'obligation': ob['name'], 'model': ob.get('model')}}
     return {'func': 'field_linear_time', 'inputs': {'obligation': ob['name'], 'model': ob.get('model')}}
 
 
